@@ -7,7 +7,9 @@ use petgraph::prelude::StableGraph;
 use petgraph::stable_graph::NodeIndex;
 
 use crate::compiler::analyses::call_graph::borrow_checker::complex::complex_borrow_check;
-use crate::compiler::analyses::call_graph::borrow_checker::move_while_borrowed::move_while_borrowed;
+use crate::compiler::analyses::call_graph::borrow_checker::move_while_borrowed::{
+    captured_nodes, move_while_borrowed,
+};
 use crate::compiler::analyses::call_graph::borrow_checker::multiple_consumers::multiple_consumers;
 use crate::compiler::analyses::call_graph::borrow_checker::ownership_relationship::OwnershipRelationships;
 use crate::compiler::analyses::call_graph::{CallGraph, OrderedCallGraph};
@@ -155,7 +157,9 @@ impl OrderedCallGraph {
         } = call_graph;
         let mut node_id2position: BiHashMap<NodeIndex, usize> =
             BiHashMap::with_capacity(call_graph.node_count());
-        let mut ownership_relationships = OwnershipRelationships::compute(&call_graph);
+        let node2captured_nodes = captured_nodes(&call_graph, component_db, computation_db);
+        let mut ownership_relationships =
+            OwnershipRelationships::compute(&call_graph, &node2captured_nodes);
         let mut position_counter = 0;
 
         let mut nodes_to_visit: Vec<NodeIndex> =
